@@ -13,6 +13,7 @@ import shutil
 import sqlite3
 import sys
 import time as _time
+import traceback
 import types
 
 sys.path.insert(0, os.path.dirname(os.path.dirname(os.path.abspath(__file__))))
@@ -169,12 +170,7 @@ def _run(sc, tape):
     sched = w.sched
     clock = w.clock
 
-    class SimDateTime(real_dt.datetime):
-        @classmethod
-        def now(cls, tz=None):
-            return real_dt.datetime.fromtimestamp(clock.time())
-    shim = types.SimpleNamespace(datetime=SimDateTime, timedelta=real_dt.timedelta, date=real_dt.date)
-    w.extra_patches.append((times, 'datetime', shim))
+    w.extra_patches.append((times, 'datetime', C.datetime_module(clock)))
     w.extra_patches.append((seeder, 'queue_class', SimQueue))
     w.extra_patches.append((seeder, 'Queue', SimQueueModule))
     shared = {'log': [], 'gen': 0, 'ocean': sc.get('ocean', False), 'src_age': sc.get('src_age')}
@@ -330,6 +326,10 @@ def _run(sc, tape):
             sched.check_alive()
         except SourceError as ex:
             exc = ex
+        except (SimAbort, SimCrash, Bad):
+            raise
+        except Exception as ex:
+            raise Bad('request-raised', '%s raised %r\n%s' % (what, ex, ''.join(traceback.format_tb(ex.__traceback__)[-3:])))
         thr2 = threshold_now()
         calls = shared['log'][n0:]
         after = _snapshot(tm, pool)
@@ -425,12 +425,19 @@ def _run(sc, tape):
                     results[i] = ('ok', tm.load_tile_coords(coords))
                 except SourceError as ex:
                     results[i] = ('err', ex)
+                except (SimAbort, SimCrash):
+                    raise
+                except Exception as ex:
+                    results[i] = ('raised', ex, ''.join(traceback.format_tb(ex.__traceback__)[-3:]))
             return fn
         tasks = [sched.spawn(client(i, r), 'conc%d' % i, w.main_proc) for i, r in enumerate(reqs)]
         sched.wait_until(lambda: all(t.state == 3 for t in tasks), 'wait-clients')
         for t in tasks:
             if t.exc is not None:
                 raise t.exc
+        for i in sorted(results):
+            if results[i][0] == 'raised':
+                raise Bad('request-raised', '%s: request %d raised %r\n%s' % (what, i, results[i][1], results[i][2]))
         thr2 = threshold_now()
         calls = shared['log'][n0:]
         after = _snapshot(tm, pool)
@@ -467,7 +474,7 @@ def _run(sc, tape):
             elif cl == 'unspecified':
                 unspecified[0] += 1
         for i, r in enumerate(reqs):
-            kind, val = results[i]
+            kind, val = results[i][0], results[i][1]
             if kind != 'ok':
                 raise Bad('spurious-error', '%s: request %d raised %r although the upstream did not fail' % (what, i, val))
             for c, tile in zip(r, val):
